@@ -1,8 +1,10 @@
 """C12 helper: machine-scenario ROM images built from hand-encoded instruction templates.
 
-A *program spec* is JSON data: {"main": [slot, ...], "handler": [slot, ...]} where a slot is a list
+A *program spec* is JSON data: {"main": [slot, ...], "handler": [slot, ...], "hexit"?: kind} where a slot is a list
 [template-name, arg?].  build() lays the main loop out at MAIN (followed by an unconditional JR back to its
-first instruction) and the handler at HANDLER (followed by RETI), writes the interrupt vector (0xFFFFA) and the
+first instruction) and the handler at HANDLER, followed by its exit ("hexit": "reti" = RETI (default), "reset" = the
+RESET instruction, i.e. a firmware restart instead of a return, "halt" = HALT; RETI, "spin" = JR back to the
+handler's first instruction, i.e. a handler that never returns), writes the interrupt vector (0xFFFFA) and the
 reset vector (0xFFFFD), and returns the 256 KiB image for 0xC0000-0xFFFFF together with per-instruction
 metadata used by the monitor (address -> kind, length, static successor, effect on IMR, whether it writes ISR,
 which CPU registers it clobbers).
@@ -23,7 +25,8 @@ IRQ_VECTOR_ADDR = 0xFFFFA
 RESET_VECTOR_ADDR = 0xFFFFD
 STACK_TOP = 0xBFF00      # initial S (internal RAM window 0xB8000-0xBFFFF)
 USTACK_TOP = 0xBFE00     # initial U
-STACK_WINDOW = 48        # bytes below STACK_TOP dumped into every observation
+STACK_WINDOW = 48        # bytes below STACK_TOP dumped into every observation (default; scenario field "stkwin")
+HEXITS = ("reti", "reset", "halt", "spin")   # handler exit kinds (program spec field "hexit"; absent = "reti")
 SCRATCH = 0x10           # internal-memory scratch byte used by INCM
 
 IMR = 0xFB
@@ -38,6 +41,7 @@ IM_HI = 0xEF
 _T: Dict[str, Tuple[Any, Any]] = {
     "NOP": (lambda a: b"\x00", lambda a: "NOP"),
     "RETI": (lambda a: b"\x01", lambda a: "RETI"),
+    "RESET": (lambda a: b"\xff", lambda a: "RESET"),
     "HALT": (lambda a: b"\xde", lambda a: "HALT"),
     "OFF": (lambda a: b"\xdf", lambda a: "OFF"),
     "WAITI": (lambda a: b"\xef", lambda a: "WAIT"),
@@ -94,6 +98,11 @@ def _meta(name: str, arg: int, addr: int, ln: int) -> Dict[str, Any]:
         m["clob"] = ["I"]
     elif name == "RETI":
         m["next"] = None
+    elif name == "RESET":
+        # soft restart: continues at a vector target (read from the observation, see c12_monitor); documented to
+        # clear ISR (pysc62015.intrinsics.eval_intrinsic_reset docstring, llama/eval.rs power_on_reset)
+        m["next"] = None
+        m["isr_w"] = True
     return m
 
 
@@ -122,18 +131,47 @@ def layout(prog: Dict[str, Any]) -> Tuple[List[Tuple[int, bytes]], Dict[int, Dic
             meta[addr] = _meta("JRB", dist, addr, 2)
             meta[addr]["next"] = base
             meta[addr]["region"] = "main"
-        else:
+        elif tail == "reti":
             b = encode("RETI")
             meta[addr] = _meta("RETI", 0, addr, 1)
             meta[addr]["region"] = "handler"
+        elif tail == "reset":
+            # the handler does not return: it restarts the firmware with the RESET instruction
+            b = encode("RESET")
+            meta[addr] = _meta("RESET", 0, addr, 1)
+            meta[addr]["region"] = "handler"
+        elif tail == "halt":
+            # the handler falls into HALT and returns once woken
+            b = encode("HALT") + encode("RETI")
+            meta[addr] = _meta("HALT", 0, addr, 1)
+            meta[addr]["region"] = "handler"
+            meta[addr + 1] = _meta("RETI", 0, addr + 1, 1)
+            meta[addr + 1]["region"] = "handler"
+        elif tail == "spin":
+            # long-running handler: loops over its body and never returns
+            dist = (addr + 2) - base
+            if dist > 0xFF:
+                raise ValueError("handler too long for JR")
+            b = encode("JRB", dist)
+            meta[addr] = _meta("JRB", dist, addr, 2)
+            meta[addr]["next"] = base
+            meta[addr]["region"] = "handler"
+        else:
+            raise ValueError(f"unknown handler exit {tail!r}")
         out += b
         segs.append((base, bytes(out)))
 
     emit(MAIN, prog["main"], "loop")
-    emit(HANDLER, prog["handler"], "reti")
+    emit(HANDLER, prog["handler"], str(prog.get("hexit") or "reti"))
     segs.append((IRQ_VECTOR_ADDR, bytes([HANDLER & 0xFF, (HANDLER >> 8) & 0xFF, (HANDLER >> 16) & 0xFF])))
     segs.append((RESET_VECTOR_ADDR, bytes([MAIN & 0xFF, (MAIN >> 8) & 0xFF, (MAIN >> 16) & 0xFF])))
     return segs, meta
+
+
+def stack_window(sc: Dict[str, Any]) -> int:
+    """Size of the observed stack window of a scenario: handlers that do not return leak one 5-byte frame per
+    delivery, so such scenarios ask for a larger window ("stkwin")."""
+    return max(STACK_WINDOW, min(int(sc.get("stkwin") or STACK_WINDOW), 0x1000))
 
 
 def image(segs: List[Tuple[int, bytes]]) -> bytes:
@@ -170,7 +208,7 @@ def selftest() -> List[str]:
     from . import gen_enc as G
 
     bad: List[str] = []
-    samples = [("NOP", 0), ("RETI", 0), ("HALT", 0), ("OFF", 0), ("WAITI", 0), ("MVI", 0x0123), ("MVI", 7),
+    samples = [("NOP", 0), ("RETI", 0), ("RESET", 0), ("HALT", 0), ("OFF", 0), ("WAITI", 0), ("MVI", 0x0123), ("MVI", 7),
                ("IMR", 0x8F), ("IMR", 0x00), ("ISR", 0x00), ("ISR", 0x05), ("ACK", 0xFE), ("ORIMR", 0x80),
                ("ANDIMR", 0x7F), ("INCA", 0), ("INCM", SCRATCH), ("KIL", 0), ("JRB", 0x23),
                ("BPW", 0x10), ("PXW", 0xA5), ("PYW", 0xFF)]
